@@ -26,6 +26,8 @@ pub enum PK {
     Structured,
     /// text containing multi-byte characters
     Unicode,
+    /// the text given verbatim in `plant[0]`
+    Literal,
 }
 
 #[derive(Serialize, Deserialize, Clone, Debug, PartialEq)]
@@ -43,7 +45,7 @@ impl Pay {
         Pay { kind, len, seed, plant: Vec::new() }
     }
     pub fn is_text(&self) -> bool {
-        matches!(self.kind, PK::Text | PK::LongText | PK::Structured | PK::Unicode)
+        matches!(self.kind, PK::Text | PK::LongText | PK::Structured | PK::Unicode | PK::Literal)
     }
     /// The unique token every payload carries (so each read is attributable to one write).
     pub fn token(&self) -> String {
@@ -54,6 +56,7 @@ impl Pay {
         let tok = self.token();
         match self.kind {
             PK::Empty => Vec::new(),
+            PK::Literal => self.plant.first().cloned().unwrap_or_default().into_bytes(),
             PK::Tiny => {
                 let n = self.len.clamp(1, 8);
                 (0..n).map(|i| if i == 0 { 0xF5 } else { r.below(256) as u8 }).collect()
@@ -262,6 +265,22 @@ pub struct SearchSpec {
     pub no_sketch: bool,
 }
 
+/// A caller-made memory card (C27); every field literal, `created_at` included.
+#[derive(Serialize, Deserialize, Clone, Debug, PartialEq, Default)]
+pub struct CardSpec {
+    pub entity: String,
+    pub slot: String,
+    pub value: String,
+    /// MemoryKind discriminant 0..6
+    pub kind: u8,
+    pub event_date: Option<i64>,
+    pub document_date: Option<i64>,
+    /// 0 Sets, 1 Updates, 2 Extends, 3 Retracts
+    pub relation: u8,
+    pub source: u64,
+    pub created_at: i64,
+}
+
 /// Caller identity for ACL-aware retrieval (C12).
 #[derive(Serialize, Deserialize, Clone, Debug, PartialEq, Default)]
 pub struct AclCtx {
@@ -289,6 +308,11 @@ pub enum Op {
     /// drop the handle (the library commits on drop when dirty)
     Close,
     Put(PutSpec),
+    /// WAL steering: a binary put whose size is chosen when the op runs, from the embedded log's
+    /// actual write head, so that its record ends `gap` bytes before the end of the log region
+    /// (gap < 48: no room for an end-of-log sentinel behind it). The first steering put of a run
+    /// calibrates the record overhead. Deterministic: the head is a function of the history.
+    PutSteer { gap: u64, seed: u64 },
     /// update committed frame `target`; payload None keeps the old payload
     Update { target: u64, spec: PutSpec },
     Delete { target: u64 },
@@ -325,6 +349,12 @@ pub enum Op {
     /// C12: retrieval with a caller context; entry 0 = search, 1 = vec_search_with_embedding_acl,
     /// 2 = search_adaptive_acl, 3 = ask (lexical mode, no embedder)
     AclSearch { spec: SearchSpec, ctx: Option<AclCtx>, enforce: bool, entry: u8, emb: Vec<f32> },
+    /// C27: put_memory_card (one) / put_memory_cards (several)
+    PutCards(Vec<CardSpec>),
+    /// C27: get_memory_at_time(entity, slot, t) (t None: get_current_memory) vs reference
+    CardQuery { entity: String, slot: String, t: Option<i64> },
+    /// C27: add nodes / edges to the logic mesh (names are literal; ids derive from them)
+    MeshAdd { nodes: Vec<(String, u8)>, edges: Vec<(usize, usize, u8)>, frame: u64 },
     /// engine 2 (C05): an operation on the embedded WAL itself
     Wal(crate::walsim::WalOp),
     /// C17, second actor ("another process"): a writable Memvid::open of the same path through an
@@ -345,7 +375,7 @@ impl Op {
             Op::Open => "open",
             Op::OpenRo => "open_ro",
             Op::Close => "close",
-            Op::Put(_) => "put",
+            Op::Put(_) | Op::PutSteer { .. } => "put",
             Op::Update { .. } => "update",
             Op::Delete { .. } | Op::DeleteUri { .. } => "delete",
             Op::UpdateUri { .. } => "update",
@@ -370,6 +400,9 @@ impl Op {
             Op::Timeline(_) => "timeline",
             Op::SearchVec { .. } => "search_vec",
             Op::AclSearch { .. } => "acl_search",
+            Op::PutCards(_) => "put_cards",
+            Op::CardQuery { .. } => "card_query",
+            Op::MeshAdd { .. } => "mesh_add",
             Op::Wal(_) => "wal",
             Op::Open2 => "open2",
             Op::LockProbe => "lock_probe",
@@ -380,7 +413,7 @@ impl Op {
     pub fn is_mutation(&self) -> bool {
         matches!(
             self,
-            Op::Put(_) | Op::Update { .. } | Op::Delete { .. } | Op::UpdateUri { .. } | Op::DeleteUri { .. } | Op::Commit | Op::Vacuum | Op::Ticket { .. } | Op::CommitSkipIndexes | Op::FinalizeIndexes
+            Op::Put(_) | Op::PutSteer { .. } | Op::Update { .. } | Op::Delete { .. } | Op::UpdateUri { .. } | Op::DeleteUri { .. } | Op::Commit | Op::Vacuum | Op::Ticket { .. } | Op::CommitSkipIndexes | Op::FinalizeIndexes
         )
     }
 }
